@@ -18,6 +18,13 @@ import (
 // VerifDir is the root of the verification tree.
 var VerifDir = "/verif"
 
+func init() {
+	// scratch mode of /verif/check (seed evaluation in a worktree): outputs go elsewhere
+	if d := os.Getenv("VERIF_DIR"); d != "" {
+		VerifDir = d
+	}
+}
+
 type knownFinding struct {
 	sig  string
 	text string
